@@ -1234,8 +1234,9 @@ class Server(utils.EventEmitter):
         See Bluetooth spec Vol 3, Part F - 3.4.7.3 Handle Value Confirmation
         '''
         del confirmation  # Unused.
-        if (pending_confirmation := self.pending_confirmations[bearer]) is None:
-            # Not expected!
+        pending_confirmation = self.pending_confirmations[bearer]
+        if pending_confirmation is None or pending_confirmation.done():
+            # Not expected! (no indication pending, or it is already confirmed)
             logger.warning(
                 '!!! unexpected confirmation, there is no pending indication'
             )
